@@ -402,10 +402,20 @@ func (p *ePair) cleanup() {
 	}
 	for fd := range listFds() {
 		if !p.baseFds[fd] {
+			if sweepLog != nil {
+				if tgt, err := os.Readlink(fmt.Sprintf("/proc/self/fd/%d", fd)); err == nil {
+					sweepLog[tgt[:strings.IndexAny(tgt+":", ":[")]]++
+				}
+			}
 			syscall.Close(fd)
 		}
 	}
 }
+
+// sweepLog (diagnostics): what kind of descriptors the end-of-execution sweep had to close by number. Anything that
+// is owned by a Go object (socket, file) must have been closed through the object before, or its finalizer would
+// close the number again during a later execution.
+var sweepLog map[string]int
 
 // bScenario is one session-level scenario explored with a deviation bound.
 type bScenario struct {
